@@ -83,6 +83,11 @@ def run(tier, seed, replay=None):
                     s_ = Fr(rng.randint(-16, 16), rng.choice([1, 2, 4]))
                     bad = rng.random() < 0.08
                     e_ = s_ - Fr(rng.randint(0, 3)) if bad else s_ + Fr(rng.randint(1, 24), rng.choice([1, 2, 4]))
+                    if rng.random() < 0.2:
+                        # a domain that is almost, but not exactly, the unit interval (what splitting at 1 - 4e-6 leaves behind):
+                        # later reparametrisations must still hit the requested interval exactly
+                        s_ = rng.choice([Fr(0), Fr(1, 2 ** 30), Fr(-1, 2 ** 28)])
+                        e_ = 1 + rng.choice([-1, -1, 1]) * Fr(1, 2 ** rng.choice([18, 20, 27]))
                     args = [rng.randrange(pd), str(s_), str(e_)]
                 else:
                     k = rng.randint(0, pd)
